@@ -22,6 +22,7 @@ import (
 	"path/filepath"
 	"sort"
 	"strings"
+	"sync"
 	"sync/atomic"
 	"time"
 
@@ -62,6 +63,10 @@ func g8aToken() [8]byte {
 type g8aLayer struct {
 	ln    net.Listener
 	token [8]byte
+
+	mu      sync.Mutex
+	blocked bool
+	conns   []net.Conn
 }
 
 func g8aListen(addr string) (*g8aLayer, error) {
@@ -72,7 +77,44 @@ func g8aListen(addr string) (*g8aLayer, error) {
 	return &g8aLayer{ln: ln, token: g8aToken()}, nil
 }
 
+// SetBlocked partitions the node from (true) or reconnects it to (false) the
+// network: while blocked every dial fails, every accepted connection is
+// dropped and all established connections are closed.
+func (l *g8aLayer) SetBlocked(b bool) {
+	l.mu.Lock()
+	l.blocked = b
+	conns := l.conns
+	if b {
+		l.conns = nil
+	}
+	l.mu.Unlock()
+	if b {
+		for _, c := range conns {
+			c.Close()
+		}
+	}
+}
+
+func (l *g8aLayer) track(c net.Conn) bool {
+	l.mu.Lock()
+	defer l.mu.Unlock()
+	if l.blocked {
+		return false
+	}
+	if len(l.conns) > 256 {
+		l.conns = l.conns[128:]
+	}
+	l.conns = append(l.conns, c)
+	return true
+}
+
 func (l *g8aLayer) Dial(addr string, timeout time.Duration) (net.Conn, error) {
+	l.mu.Lock()
+	blocked := l.blocked
+	l.mu.Unlock()
+	if blocked {
+		return nil, fmt.Errorf("partitioned")
+	}
 	c, err := net.DialTimeout("tcp", addr, timeout)
 	if err != nil {
 		return nil, err
@@ -83,6 +125,10 @@ func (l *g8aLayer) Dial(addr string, timeout time.Duration) (net.Conn, error) {
 		return nil, err
 	}
 	c.SetWriteDeadline(time.Time{})
+	if !l.track(c) {
+		c.Close()
+		return nil, fmt.Errorf("partitioned")
+	}
 	return c, nil
 }
 
@@ -110,11 +156,17 @@ func (c *g8aConn) Read(p []byte) (int, error) {
 }
 
 func (l *g8aLayer) Accept() (net.Conn, error) {
-	c, err := l.ln.Accept()
-	if err != nil {
-		return nil, err
+	for {
+		c, err := l.ln.Accept()
+		if err != nil {
+			return nil, err
+		}
+		if !l.track(c) {
+			c.Close()
+			continue
+		}
+		return &g8aConn{Conn: c, token: l.token}, nil
 	}
-	return &g8aConn{Conn: c, token: l.token}, nil
 }
 func (l *g8aLayer) Close() error   { return l.ln.Close() }
 func (l *g8aLayer) Addr() net.Addr { return l.ln.Addr() }
@@ -531,6 +583,8 @@ func g8aRebuildFromStore(src, dst, id string) (dump, integrity string, openErr, 
 	if err != nil {
 		return "", "", nil, err
 	}
+	// the copy must not talk to the live cluster
+	s.ly.(*g8aLayer).SetBlocked(true)
 	defer s.ly.Close()
 	if err := s.Open(); err != nil {
 		return "", "", err, nil
@@ -683,3 +737,37 @@ func g8aBarrier(s *Store, d time.Duration) error {
 
 // G8aBarrier is the exported alias.
 var G8aBarrier = g8aBarrier
+
+// g8aRestoreOnly copies the data directory src to dst, removes the SQLite
+// files and the fingerprint and opens a Store on the copy without waiting for
+// leadership: Open returns after raft restored the newest snapshot, which is
+// all a node that cannot lead on its own (a follower's copy) will do. It
+// returns the dump of that restored state.
+func g8aRestoreOnly(src, dst, id string) (dump, integrity string, openErr, infraErr error) {
+	if err := vsql.CopyDir(src, dst); err != nil {
+		return "", "", nil, fmt.Errorf("copy: %w", err)
+	}
+	for _, f := range []string{sqliteFile, sqliteFile + "-wal", sqliteFile + "-shm", cleanSnapshotName} {
+		os.Remove(filepath.Join(dst, f))
+	}
+	s, err := g8aNewStore(dst, id, g8aOpts{NoSnapshotOnClose: true, ReapThreshold: 1000})
+	if err != nil {
+		return "", "", nil, err
+	}
+	// the copy must not talk to the live cluster
+	s.ly.(*g8aLayer).SetBlocked(true)
+	defer s.ly.Close()
+	if err := s.Open(); err != nil {
+		return "", "", err, nil
+	}
+	defer s.Close(true)
+	d, err := g8aDumpLive(s)
+	if err != nil {
+		return "", "", fmt.Errorf("dump of restored database: %w", err), nil
+	}
+	ic, err := vsql.IntegrityCheck(s.dbPath)
+	if err != nil {
+		return d, "", fmt.Errorf("integrity_check of restored database: %w", err), nil
+	}
+	return d, ic, nil, nil
+}
